@@ -21,6 +21,7 @@ structure RState where
   maxTid : Nat
   simple : Simple.State
   hiddenSteps : Nat := 0
+  stalled : Option String := none      -- VRT ended the run with `VERDICT deadlock|step-limit`
 
 def hdrNat (hdr : List String) (key : String) (dflt : Nat) : Nat :=
   (hdr.filterMap (fun h => if h.startsWith (key ++ "=") then (h.drop (key.length + 1)).toNat? else none)).head?.getD dflt
@@ -185,9 +186,30 @@ def stepPool (r : RState) (o : Obs) (a : Act) : Except String RState := do
         | none => throw s!"thread {t} at {showPc (r.s.pc t)}: step {reprStr lb} is not enabled in the model"
       | _ => throw s!"thread {t} at {showPc (r.s.pc t)}: step {reprStr lb} is not enabled in the model"
 
+/-- complete every hidden step that is enabled (used when the run has stalled, to bring the model up to date) -/
+partial def settle (r : RState) (fuel : Nat) : RState :=
+  if fuel = 0 then r else
+  let try1 (r : RState) (u : Nat) : Option RState :=
+    [Lbl.publish, Lbl.receive, Lbl.release].findSome? (fun lb =>
+      (step r.c r.s u lb).map (fun s' => { r with s := s', hiddenSteps := r.hiddenSteps + 1 }))
+  match (List.range (r.maxTid + 1)).findSome? (try1 r) with
+  | some r' => settle r' (fuel - 1)
+  | none => r
+
+/-- the documented blocking submit: a stall is the client's own doing iff every worker that has not
+exited is itself blocked pushing a child into the full global queue -/
+def stallByDesign (r : RState) : Except String Unit :=
+  let live := r.c.workers.filter (fun w => r.s.pc w != .exited)
+  match live.find? (fun w => match r.s.pc w with
+      | .gPub p (.rRet _ _) => r.s.g.slotFree r.c.gslots p
+      | _ => true) with
+  | some w => .error s!"stall: worker {w} is at {showPc (r.s.pc w)}, not blocked in its own submission to the full global queue"
+  | none => if live.isEmpty then .error "stall although every worker has exited" else .ok ()
+
 def stepObs (r : RState) (o : Obs) : Except String RState :=
+  if o.kind == "VERDICT" then .ok { (settle r 4096) with stalled := some (o.args.headD "?") } else
   match Act.ofObs o with
-  | none => if o.kind == "VERDICT" then .ok r else .error "unknown trace line"
+  | none => .error "unknown trace line"
   | some a =>
     if r.mode == "pool" then stepPool r o a
     else match Simple.stepAct r.mode r.simple o.tid a with
@@ -196,7 +218,8 @@ def stepObs (r : RState) (o : Obs) : Except String RState :=
 
 /-- end of trace: the model-side statement of the property on the replayed path -/
 def finalR (r : RState) : Except String Unit :=
-  if r.mode != "pool" then Simple.final r.mode r.simple else
+  if r.mode != "pool" then (if r.stalled.isSome then .error "stall" else Simple.final r.mode r.simple) else
+  if r.stalled.isSome then stallByDesign r else
   if !r.s.stopReturned then .ok () else
   let ids := List.range 4096
   match ids.find? (fun id => r.s.known id && (r.s.preStop id || r.s.viaLocal id) && !r.s.done id) with
